@@ -402,8 +402,14 @@ def rand_sweep(cirq, rng, depth):
             return cirq.Points(key, [rng.choice([0.0, 0.5, -1.25, 3.0, 0.1, 1e-3]) for _ in range(rng.choice([0, 1, 2, 3, 5]))], metadata=md)
         if k < 0.8:
             return cirq.Linspace(key, rng.choice([0.0, -1.0, 0.25]), rng.choice([1.0, 2.5, 0.0]), rng.choice([1, 2, 3, 7]))
-        if k < 0.86:
+        if k < 0.84:
             return cirq.UnitSweep
+        if k < 0.88:
+            # random samples from a finite distribution written in any order of its values
+            import cirq_google as cg_
+
+            vals = rng.sample([0.0, 1.0, -1.0, 0.5, 2.0, 3.0], rng.choice([2, 3, 4]))
+            return cg_.study.FiniteRandomVariable(key, distribution={v: float(rng.choice([1, 2, 3])) for v in vals}, seed=rng.randrange(100), length=rng.choice([1, 3, 6]))
         if k < 0.95:
             # explicit lists of assignments, with the same parameters in every point or not
             names = rng.sample(['a', 'b', 'c'], rng.choice([1, 2]))
